@@ -18,8 +18,9 @@ import (
 // be removed shortly after their own lifetime - the expiry wake-up may not wait for the head of
 // the queue that was current when the timer was armed.
 //
-// Wall-clock use: lifetimes are <= 120 ms and the expiry tick is 100 ms; the verdict bound is 3 s
-// (the long entry lives 12 s), i.e. more than ten times the legitimate worst case.
+// Wall-clock use: lifetimes are <= 120 ms and the expiry tick is 100 ms; the verdict bound is 8 s
+// (the long entry lives 12 s), i.e. dozens of times the legitimate worst case, so that a busy
+// machine cannot turn scheduling delay into a verdict.
 func c08FreeRun(c *h.Ctx, id string, r *rand.Rand) {
 	c.Eval(1)
 	s := fwsim.New(fwsim.Options{CsAdmit: r.Intn(2) == 0, CsServe: true, CsCapacity: 8, DnlLifetimeMs: 100,
@@ -87,7 +88,7 @@ func c08FreeRun(c *h.Ctx, id string, r *rand.Rand) {
 			}
 		}
 	}
-	n, took := waitPit(1, 3*time.Second)
+	n, took := waitPit(1, 8*time.Second)
 	c.Count("free_running_expiry_checks", 1)
 	c.Distinct(fmt.Sprintf("free-running|short=%d|satisfied=%v", k, satisfied))
 	if n != 1 {
